@@ -1,6 +1,6 @@
 /* VERIF-GROUP
 {
- "property": ["C15"],
+ "property": ["C15", "C17"],
  "entry": "h_json_find",
  "enforce": ["json_find"],
  "replace": ["skip_ws", "match_str", "skip_value"],
